@@ -490,6 +490,21 @@ def check(ctx):
             ctx.violation("a meaning-preserving rewrite changes the emitted document (%s)" % what, inp, "the same document", "a different document")
         else:
             ctx.count("symmetric_pairs_" + ("accepted" if oka else "rejected"))
+    # renaming a declaration of the main module that carries the name of a declaration of an imported module
+    shared = "let item = { 'id int, 'sku str };\nlet page = { 'items [item], 'next uri };\n"
+    mm = [("renaming a declaration named like a declaration of an imported module",
+           {MAIN: 'use "shared.oal" as m;\nlet item = { \'name str };\nres /items on get -> <item>;\nres /pages on get -> <m.page>;\n', "file:///w/shared.oal": shared},
+           {MAIN: 'use "shared.oal" as m;\nlet entry = { \'name str };\nres /items on get -> <entry>;\nres /pages on get -> <m.page>;\n', "file:///w/shared.oal": shared})]
+    for what, ma, mb in mm:
+        a, b = progs.compile_many([{"mods": ma, "main": MAIN}, {"mods": mb, "main": MAIN}])
+        ctx.cov["evaluations"] += 1
+        inp = {"original": {"mods": ma, "main": MAIN}, "rewritten": {"mods": mb, "main": MAIN}, "steps": [what]}
+        if a.get("status") != "ok" or b.get("status") != "ok":
+            ctx.violation("a meaning-preserving rewrite makes an accepted program rejected (%s)" % what, inp, "accepted", str(a.get("msg") or b.get("msg"))[:200])
+        elif canon.canon_doc(a["doc"]) != canon.canon_doc(b["doc"]):
+            ctx.violation("a meaning-preserving rewrite changes the emitted document (%s)" % what, inp, "the same document", "a different document")
+        else:
+            ctx.count("module_pairs_ok")
     n = 4500 if ctx.thorough else 300
     ps = progs.gen_programs(ctx, n)
     # the evaluator tie (C05_alpha_evaluation is a theorem about Model/Eval.v)
